@@ -1,0 +1,13 @@
+//go:build verif
+
+package local
+
+import (
+	"github.com/mutagen-io/mutagen/pkg/synchronization"
+)
+
+// VerifC42PollSignalPending reports (without consuming it) whether a poll
+// signal is waiting to be delivered to the next Poll call.
+func VerifC42PollSignalPending(e synchronization.Endpoint) bool {
+	return len(e.(*endpoint).pollSignal.Signals()) > 0
+}
